@@ -167,20 +167,24 @@ fn run_once(spec: &RunSpec) {
     }
 }
 
-/// engine-C workloads: even indices the dense single-interpolator workloads of engine B, odd
-/// indices full engine-A worlds (several interpolators, up to 16 threads, every fault kind that
-/// does not need the baton)
+/// engine-C workloads, by index modulo 3: the dense single-interpolator workloads of engine B;
+/// full engine-A worlds (several interpolators, up to 16 threads, every fault kind that does not
+/// need the baton); "wide hammer" workloads (long axis, one hot key in each of many segments)
 pub fn workload(seed: u64, index: u64, c18: bool) -> RunSpec {
+    let (kind, sub) = (index % 3, index / 3);
     let mut spec = if c18 {
-        if index % 2 == 0 {
-            crate::gen::gen_miri_c18(derive(derive(seed, 0x2718_2818), index / 2), index / 2).spec
+        if kind == 0 {
+            crate::gen::gen_miri_c18(derive(derive(seed, 0x2718_2818), sub), sub).spec
         } else {
             crate::gen::gen_run(derive(derive(seed, 0xC18C), index), crate::gen::Mode::C18).spec
         }
-    } else if index % 2 == 0 {
-        crate::gen::gen_miri(derive(derive(seed, 0x3141_5926), index / 2), index / 2).spec
-    } else {
+    } else if kind == 0 {
+        crate::gen::gen_miri(derive(derive(seed, 0x3141_5926), sub), sub).spec
+    } else if kind == 1 {
         crate::gen::gen_run(derive(derive(seed, 0xC17C), index), crate::gen::Mode::C17).spec
+    } else {
+        let want = [Some(Kind::Linear), Some(Kind::Spline), Some(Kind::Bilinear), None][(sub % 4) as usize];
+        crate::gen::gen_hammer_wide(derive(derive(seed, 0x51DE), sub), want).spec
     };
     // the baton's schedule fields mean nothing here
     spec.sched = Sched::RoundRobin { quantum: 1 };
@@ -216,12 +220,19 @@ pub fn run(spec: RunSpec, sched_seed: u64, iters: usize, mode: Mode, persist_dir
     for c in &spec.slots {
         println!("SLOT {}", c.label());
     }
+    // the clock seam: `std::time::Instant` inside the crate under test reads the simulated clock
+    verif_std::time::sim_seed(sched_seed ^ 0xC10C);
     let mut config = shuttle::Config::new();
     config.failure_persistence = match &persist_dir {
         Some(d) => shuttle::FailurePersistence::File(Some(d.into())),
         None => shuttle::FailurePersistence::None,
     };
     config.max_steps = shuttle::MaxSteps::FailAfter(5_000_000);
+    // PCT insists on concurrency; a one-thread world is a plain history
+    let mode = match mode {
+        Mode::Pct(_) if spec.threads.len() < 2 => Mode::Random,
+        m => m,
+    };
     let spec = std::sync::Arc::new(spec);
     let s2 = spec.clone();
     let body = move || {
@@ -234,6 +245,8 @@ pub fn run(spec: RunSpec, sched_seed: u64, iters: usize, mode: Mode, persist_dir
         Mode::Replay(path) => shuttle::Runner::new(ReplayScheduler::new_from_file(path).expect("schedule file"), config).run(body),
     }));
     let iters_done = ITER.load(Ordering::Relaxed);
+    let (sim_ns, clock_reads) = verif_std::time::sim_stats();
+    println!("CLOCK simulated_ns={} reads_by_crate={}", sim_ns, clock_reads);
     let orders = {
         let mut o = ORDERS.lock().unwrap_or_else(|p| p.into_inner()).clone();
         o.sort();
